@@ -128,13 +128,16 @@ static inline size_t vec_checked_index(size_t i, size_t n, bool at)
 }
 
 /* *it as an lvalue expression; dereferencing end() is undefined behaviour */
+#ifndef PW_COUNT_ONLY_VECTORS
 #define VIT_DEREF(it) ((it).v->d[vit_checked_index((it).i, (it).v->n)])
+#endif
 static inline size_t vit_checked_index(size_t i, size_t n)
 {
     MODEL_ASSERT(i < n, "iterator dereferenced at or past end()");
     return i;
 }
 
+#ifndef PW_COUNT_ONLY_VECTORS
 #define VIT_DECL(NAME, CONT)                                                                  \
     typedef struct                                                                            \
     {                                                                                         \
@@ -157,6 +160,31 @@ static inline size_t vit_checked_index(size_t i, size_t n)
     static inline NAME CONT##_cbegin(const CONT *c) { return (NAME){(CONT *)c, 0}; }          \
     static inline NAME CONT##_cend(const CONT *c) { return (NAME){(CONT *)c, CONT##_size(c)}; }
 
+#else
+/* iterators over count-only vectors: a position; dereferencing reads an unconstrained element */
+#define VIT_DECL(NAME, CONT)                                                                  \
+    typedef struct                                                                            \
+    {                                                                                         \
+        CONT *v;                                                                              \
+        size_t i;                                                                             \
+    } NAME;                                                                                   \
+    static inline CONT##_elem_t NAME##_deref(NAME it) { return CONT##_get(it.v, it.i); }     \
+    static inline NAME NAME##_add(NAME it, ptrdiff_t k) { return (NAME){it.v, (size_t)((ptrdiff_t)it.i + k)}; } \
+    static inline NAME CONT##_begin(const CONT *c) { return (NAME){(CONT *)c, 0}; }           \
+    static inline NAME CONT##_end(const CONT *c) { return (NAME){(CONT *)c, CONT##_size(c)}; } \
+    static inline NAME CONT##_cbegin(const CONT *c) { return (NAME){(CONT *)c, 0}; }          \
+    static inline NAME CONT##_cend(const CONT *c) { return (NAME){(CONT *)c, CONT##_size(c)}; }
+#endif
+#ifdef PW_COUNT_ONLY_VECTORS
+#define VVEC_IT_OPS_RANGE(NAME, IT)                                                           \
+    static inline IT NAME##_erase_2(NAME *v, IT a, IT b)                                      \
+    {                                                                                         \
+        NAME##_erase_range(v, a.i, b.i);                                                      \
+        return a;                                                                             \
+    }
+#else
+#define VVEC_IT_OPS_RANGE(NAME, IT)
+#endif
 #define VVEC_IT_OPS(NAME, IT)                                                                 \
     static inline IT NAME##_erase_1(NAME *v, IT it)                                           \
     {                                                                                         \
@@ -167,7 +195,8 @@ static inline size_t vit_checked_index(size_t i, size_t n)
     {                                                                                         \
         NAME##_insert_pos(v, it.i, x);                                                        \
         return it;                                                                            \
-    }
+    }                                                                                         \
+    VVEC_IT_OPS_RANGE(NAME, IT)
 
 #define VPAIR_DECL(NAME, A, B)                                                                \
     typedef struct                                                                            \
